@@ -203,7 +203,20 @@ ArgOf(e, mk, toks, sp) ==
                orig == SubSeq(chars, s + 1, en)
                tok  == SubSeq(chars, s0 + 1, en)
            IN Arg(s, en, TRUE, orig, e.name, Conv(mk, e.k, tok, orig))
-ArgsOf(p, mk, toks, spans) == LET fs == Fields(p) IN [n \in DOMAIN fs |-> ArgOf(fs[n], mk, toks, spans[n])]
+\* the regex matchers report the groups in pattern order; ParseMatcher.check_match collects the anonymous fields,
+\* then the named ones, and sorts by start (stable: only zero-width arguments -- absent optional fields -- can tie)
+RECURSIVE InsertByStart(_,_), SortByStart(_,_)
+InsertByStart(a, s) == IF s = <<>> THEN <<a>>
+                       ELSE IF a.start < Head(s).start THEN <<a>> \o s
+                       ELSE <<Head(s)>> \o InsertByStart(a, Tail(s))
+SortByStart(s, acc) == IF s = <<>> THEN acc ELSE SortByStart(Tail(s), InsertByStart(Head(s), acc))
+IsNamedArg(a) == a.has_name
+IsAnonArg(a)  == ~a.has_name
+ArgsOf(p, mk, toks, spans) ==
+   LET fs  == Fields(p)
+       raw == [n \in DOMAIN fs |-> ArgOf(fs[n], mk, toks, spans[n])]
+   IN IF mk \in RegexKinds THEN raw
+      ELSE SortByStart(SelectSeq(raw, IsAnonArg) \o SelectSeq(raw, IsNamedArg), <<>>)
 
 \* ---------------------------------------------------------------- the registry
 Types == {"given", "when", "then", "step"}
@@ -215,14 +228,16 @@ Entry(p, mk, func) == LET text == Render(p, mk) IN
                       [pat |-> p, kind |-> mk, text |-> text, stored |-> Stored(mk, text), func |-> func]
 \* Matcher.matches(text): the stored pattern itself, or a (non-error) match
 Matches(e, text) == e.stored = text \/ Match(e.pat, Split(text)).ok
-\* StepRegistry.same_step_definition(existing, new text, new location)
-SameDef(e, text, func) == e.stored = text /\ e.func = func
-RECURSIVE Scan(_,_,_,_)
-Scan(list, i, text, func) ==
+\* StepRegistry.same_step_definition(existing, new_step_matcher.pattern, new location): the *stored* patterns
+\* are compared ("^text$" for the re matcher on both sides), so the very same function and pattern is ignored
+\* under every matcher
+SameDef(e, newstored, func) == e.stored = newstored /\ e.func = func
+RECURSIVE Scan(_,_,_,_,_)
+Scan(list, i, text, newstored, func) ==
    IF i > Len(list) THEN "ok"
-   ELSE IF SameDef(list[i], text, func) THEN "ignored"
+   ELSE IF SameDef(list[i], newstored, func) THEN "ignored"
    ELSE IF Matches(list[i], text) THEN "ambiguous"
-   ELSE Scan(list, i + 1, text, func)
+   ELSE Scan(list, i + 1, text, newstored, func)
 
 UseMatcher(st, mk) == [st EXCEPT !.current = mk]
 \* environment.py: use_step_matcher(mk), then load_step_modules: use_current_step_matcher_as_default()
@@ -232,7 +247,7 @@ ModuleEnd(st)      == [st EXCEPT !.current = st.default]
 \* add_step_definition(type, Render(p, current), func): res in {ok, ignored, ambiguous}
 Register(st, ty, p, func) ==
    LET e == Entry(p, st.current, func)
-       r == Scan(st.steps[ty], 1, e.text, func)
+       r == Scan(st.steps[ty], 1, e.text, e.stored, func)
    IN [res |-> r, st |-> IF r = "ok" THEN [st EXCEPT !.steps[ty] = Append(@, e)] ELSE st]
 
 \* find_match(step): candidates = the step type's list ++ the generic list, first hit wins
